@@ -169,6 +169,17 @@ func init() {
 				nr.texts = append(nr.texts, cr.text)
 				nr.rules = append(nr.rules, r)
 			}
+			// mask patterns for the hostname-request target harness are appended after the grammar rules
+			rc.Natives["ngrammar"] = len(nr.texts)
+			extra := enumerateMaskRules(1, 0, rc.Seed)
+			for _, p := range []string{"/zq.", "/z-q.zq.", "/zq_", "://zq", "http://zq", "https://z", "zq.", ".zq", "z*q", "|zq", "zq|", "^zq", "zq^", "/zq./", "a/b"} {
+				if r, err := rules.NewNetworkRule(p+"$domain=example.org", 1); err == nil && !r.IsRegexRule() {
+					extra.texts = append(extra.texts, p+"$domain=example.org")
+					extra.rules = append(extra.rules, r)
+				}
+			}
+			nr.texts = append(nr.texts, extra.texts...)
+			nr.rules = append(nr.rules, extra.rules...)
 			rc.Natives["rules"] = nr
 			rc.Natives["c04"] = crs
 			b, _ := json.Marshal(nr.texts)
@@ -210,18 +221,33 @@ func init() {
 					}
 				}
 			}
+			ng := curRun.Natives["ngrammar"].(int)
+			nall := len(curRun.Natives["rules"].(*nativeRules).texts)
+			hostLs := []int64{2, 5, 8}
+			if tier == "thorough" {
+				hostLs = []int64{1, 2, 3, 5, 8, 11}
+			}
+			for from := ng; from < nall; from += 10 {
+				c := 10
+				if from+c > nall {
+					c = nall - from
+				}
+				for _, L := range hostLs {
+					jobs = append(jobs, Job{Pkg: "rules", Func: "verifC04Target", Args: []int64{int64(from), int64(c), L}})
+				}
+			}
 			return jobs
 		},
 		Setup: func(e *sym.Engine, st *sym.State, l *sym.Loaded) {
 			setupNetip(e, st, l)
 			e.Ctx["native:rule"] = nativeRuleProvider(curRun.Natives["rules"].(*nativeRules))
 		},
-		MustReach: []string{"c04.match", "c04.nomatch"},
+		MustReach: []string{"c04.match", "c04.nomatch", "c04.target.url", "c04.target.hostname"},
 		Bounds: map[string]string{
 			"quick":    "rules: every single modifier of the grammar with every value set of its menu in every value order (1..4 values, negations, wildcard TLD, IPv4/IPv6/CIDR/quoted clients) plus 40 seeded pairs and 30 seeded multi-modifier rules; request: third-party flag, hostname-request flag, one-hot content type, 16-bit DNS type, client name 0..1 bytes, client IP absent / IPv4 with two symbolic bytes / IPv6 with two symbolic bytes, 0..2 sorted one-byte tags all symbolic; source host 1,3,4,5,6 symbolic bytes over {z,q,.} plus tail {'', .com, .co.uk} or empty; request host 1,4 bytes plus tail or empty",
 			"thorough": "400 pairs and 300 multi-modifier rules; source hosts up to 8 and request hosts up to 6 symbolic bytes",
 		},
-		Outside:     []string{"the pattern conjunct (C03/C05): the pattern is ||example.org^ and the URL is fixed", "zero or multi-bit request types (not a documented request)", "the Public Suffix List beyond the validated compact model", "netip.Prefix.Contains is executed from its real body on both sides of the comparison"},
+		Outside:     []string{"the pattern conjunct for URL requests (C03/C05): there the pattern is ||example.org^ and the URL is fixed; for hostname requests the choice of the match target is checked on every 1-token mask pattern and a menu of scheme/path patterns with hostnames of 2,5,8 symbolic bytes", "zero or multi-bit request types (not a documented request)", "the Public Suffix List beyond the validated compact model", "netip.Prefix.Contains is executed from its real body on both sides of the comparison"},
 		Assumptions: []string{"PSL model (validated exhaustively each run)", "client tags of the request are sorted (documented on the field)", "the reference uses the parsed value lists; that they equal the values written in the rule text (as sets) is cross-checked natively for every grammar rule"},
 		Rule:        "outer enumeration of grammar rules (parsed natively); per rule and host-length shape one symbolic request; IP family and tag count fork",
 		Validate: func(l *sym.Loaded, tier string, seed int64) (int, []string) {
